@@ -639,8 +639,15 @@ def big_catalogue():
         armodels.armodel_sim(np.array([0.5, 0.2]), rs.normal(0, 1, n)),
         armodels.armodel_residual(np.array([0.5, 0.2]),
                                   rs.normal(0, 1, n))))
-    add("metrics.anderson_darling_test", lambda rs, n:
-        metrics.anderson_darling_test(rs.uniform(0, 1, n)))
+    def adtest(rs, n):
+        # every branch of the finite-sample correction: a sample that is too
+        # regular (statistic near 0), an ordinary one, one that is not uniform
+        out = []
+        for u in ((np.arange(n) + 0.5) / n, rs.uniform(0, 1, n),
+                  rs.uniform(0, 1, n) ** 1.05):
+            out.append(metrics.anderson_darling_test(u))
+        return out
+    add("metrics.anderson_darling_test", adtest)
     add("sutils.acf", lambda rs, n: sutils.acf(rs.normal(0, 1, n), maxlag=5))
 
     def var2h(rs, n):
